@@ -49,6 +49,12 @@ def main():
         print("patch does not apply:", out)
         return 2
     results = meta.setdefault("checks", {})
+    # evidence files must describe runs on the unchanged tree: keep them aside
+    saved = {}
+    for pr in props:
+        ep = os.path.join(ROOT, "evidence", "%s.json" % pr)
+        if os.path.exists(ep):
+            saved[ep] = open(ep).read()
     try:
         for p in props:
             t = time.time()
@@ -71,6 +77,8 @@ def main():
                     print("      (replay unreadable: %s)" % e)
     finally:
         sh("git -C /repo checkout -- .")
+        for ep, text in saved.items():
+            open(ep, "w").write(text)
     json.dump(meta, open(meta_p, "w"), indent=1)
     return 0
 
